@@ -210,6 +210,20 @@ Proof.
   - apply group_trace_In. exact Ha.
 Qed.
 
+Theorem tl_on_caller l tl t : traces_disp_thr l tl t ->
+  forall e th, In (e, th) t -> In (ev_tag e) tl -> ~ In (ev_tag e) (concat (concat l)) -> th = Caller.
+Proof.
+  intros (t1 & H & ->) e th Hin _ Hn. apply in_app_or in Hin. destruct Hin as [Hin|Hin].
+  - apply in_map_iff in Hin. destruct Hin as (e' & E & He'). inversion E; subst.
+    exfalso. apply Hn. now apply (staged_In l t1 e H).
+  - apply in_map_iff in Hin. destruct Hin as (e' & E & _). now inversion E.
+Qed.
+
+Theorem thr_erase l tl t : traces_disp_thr l tl t -> traces_disp l tl (map fst t).
+Proof.
+  intros (t1 & H & ->). exists t1. split; auto. rewrite map_app, !map_map. cbn. now rewrite !map_id.
+Qed.
+
 (* ---------------- C01: windows that can overlap belong to side-by-side systems ---------------- *)
 
 Definition side_by_side (l : lay) (a c : N) : Prop :=
